@@ -18,6 +18,9 @@ RULE = ("TLC enumerates goal regions per dimension and hands each one over with 
         "motions, each cold and after a first query (warm), moved through GoalRegion / PlanningProblem / "
         "PlanningProblemSet.translate_rotate (cycling), then queried on the moved 13x13 probe grid + 25 probes at the old "
         "location and 6 trajectories; every second random case moves its goal as well. "
+        "State classes: 13 heading / speed goals x 144 states of 9 classes by stored attributes (KSState, STState, "
+        "ExtendedPMState, MBState, InitialState, CustomState{o,v}, CustomState{o,v,vy}; PMState, CustomState{v,vy}) with "
+        "headings -9,-6,-2,0,2,6,9,12 (x pi/12) + one trajectory per class; random states draw a class as well. "
         "File route: 4 lanelet-referenced goal regions in a 3-lanelet network are written (XML cold, protobuf warm; XML warm for [scn,pps]) "
         "and read back, queried as read, and after Scenario / PlanningProblemSet.translate_rotate histories [scn], "
         "[scn,pps], [pps,scn], [pps] with 4 lattice motions, on 63 probes at the old place, the once-moved and the "
@@ -40,6 +43,14 @@ ASSUMPTIONS = ["time_step is mandatory in a goal state (GoalRegion rejects goal 
                "file route: positions are half-integers (exact in XML text and protobuf doubles); angle end points went "
                "through print/parse, so every end-point hit is EITHER; the goal must move once per planning-problem-set "
                "motion and never with the scenario",
+               "state classes: a state that stores an orientation and NO velocity_y is judged by it and by its stored "
+               "velocity (ExtendedPMState only derives velocity_y); a state without stored orientation but with velocity "
+               "and velocity_y is judged by atan2(vy, vx) and hypot(vx, vy); a state that stores BOTH an orientation and a "
+               "velocity_y (MBState, CustomState{o,v,vy}) is outside the statement's 'kinematic and point-mass' classes: "
+               "both readings are accepted for the orientation / velocity constraints (EITHER unless they agree), time and "
+               "position stay exact, and the call must still not raise. Observed: the library overrides the stored heading "
+               "and speed of such states by atan2(velocity_y, velocity) / hypot (e.g. MBState(orientation=0, velocity=1, "
+               "velocity_y=1) does not reach a goal with orientation [-0.5, 0.5])",
                "expected verdicts are computed by TLC from Goal.tla!Reached / GoalReachedV / IndexOk / MovedReached, never in Python"]
 
 _DIRS = {(1, 0): "E", (1, 1): "NE", (0, 1): "N", (-1, 1): "NW", (-1, 0): "W", (-1, -1): "SW", (0, -1): "S",
@@ -102,6 +113,8 @@ def _sig(op, goal, s, res):
         parts.append("int" if s["thint"] else "float")
     elif "velocity" in attrs:
         parts.append("int" if s["vint"] else "float")
+    if s.get("cls") not in (None, "KSState", "PMState"):
+        parts.append("cls:" + s["cls"])
     return op + "/" + "/".join(parts)
 
 
@@ -208,7 +221,10 @@ def _rand_case(rng, i):
             else:
                 th, thint = rng.randint(-24, 24), 0
             v = rng.randint(-6, 31) if g["vel"]["k"] == "none" else rng.randint(g["vel"]["lo"] - 1, g["vel"]["hi"] + 1)
-            states.append({"kind": "ks", "t": t, "p": p, "th": th, "thint": thint, "v": v, "vint": rng.randint(0, 1)})
+            st = {"kind": "ks", "t": t, "p": p, "th": th, "thint": thint, "v": v, "vint": rng.randint(0, 1)}
+            if rng.random() < 0.5:            # the same stored values in another state class
+                st.update(cls=rng.choice(_KS_CLASSES), vy=rng.randint(-9, 9))
+            states.append(st)
         else:
             if has_ori or rng.random() < 0.5:
                 d = rng.choice([d for d in _DIRS if d != (0, 0)] + [(0, 0)])
@@ -216,7 +232,8 @@ def _rand_case(rng, i):
                 vx, vy = m * d[0], m * d[1]
             else:
                 vx, vy = rng.randint(-20, 20), rng.randint(-20, 20)
-            states.append({"kind": "pm", "t": t, "p": p, "vx": vx, "vy": vy, "vint": rng.randint(0, 1)})
+            states.append({"kind": "pm", "t": t, "p": p, "vx": vx, "vy": vy, "vint": rng.randint(0, 1),
+                           "cls": rng.choice(("PMState", "CustomVV"))})
     trajs = []
     for kind in ("ks", "pm"):
         pool = [s for s in states if s["kind"] == kind]
@@ -224,11 +241,23 @@ def _rand_case(rng, i):
             if pool:
                 n = rng.randint(1, 4)
                 t0 = rng.randint(0, 40)
-                trajs.append([dict(rng.choice(pool), t=t0 + j) for j in range(n)])
+                tag = rng.choice(pool).get("cls")          # one state class per trajectory (Trajectory demands it)
+                tr = []
+                for j in range(n):
+                    st = dict(rng.choice(pool), t=t0 + j)
+                    if tag:
+                        st["cls"] = tag
+                        if kind == "ks":
+                            st.setdefault("vy", 0)
+                    else:
+                        st.pop("cls", None)
+                    tr.append(st)
+                trajs.append(tr)
     return {"cls": "random", "goal": goal, "states": states, "trajs": trajs, "src": "random"}
 
 
 _VIAS = ("goal", "problem", "set")
+_KS_CLASSES = ("KSState", "STState", "ExtendedPMState", "MBState", "InitialState", "CustomOV", "CustomOVV")
 
 
 def _rotq(q, x, y):
@@ -249,6 +278,10 @@ def _move_state(s, mv):
         th = s["th"] + 6 * q
         r["th"] = th - 24 if th > 24 else th
     return r
+
+
+def _cls_tag(s):
+    return "/cls:" + s["cls"] if s.get("cls") not in (None, "KSState", "PMState") else ""
 
 
 def _expand_moved(c, n):
@@ -285,7 +318,7 @@ def _expand_file(c):
 
 def cases(ctx):
     raw = ctx.gen("MC_Goal", "GEN_Goal_t.cfg" if ctx.thorough else "GEN_Goal.cfg")
-    bands, mbands, cs = 0, 0, []
+    bands, mbands, cbands, cs = 0, 0, 0, []
     for n, c in enumerate(raw):
         c["src"] = "tlc"
         b = c.pop("bands", 0)                 # evidence only; never reaches execute()
@@ -296,15 +329,21 @@ def cases(ctx):
             cs.extend(_expand_moved(c, n))
         else:
             bands += b
+            if c["cls"] == "cls":
+                cbands += b
             for k in ("moves", "mstates", "mtrajs", "lanes", "fmoves", "fhists", "fstates", "ftrajs"):
                 c.pop(k, None)
             cs.append(c)
     ctx.extra["either_band"] = {"tlc_probe_states": sum(len(c["states"]) for c in cs if "mv" not in c),
                                 "file_probe_states": sum(len(c["fstates"]) for c in cs if "hist" in c),
                                 "expected_EITHER": bands,
+                                "of_which_state_class_dimension": cbands,
                                 "moved_probe_states": sum(len(c["mstates"]) for c in cs if "mstates" in c) // 2,
                                 "moved_expected_EITHER": mbands,
-                                "note": "declared in Goal.tla: orientation on an interval end point after a non-zero "
+                                "note": "declared in Goal.tla: states that store BOTH an orientation and a velocity_y (MBState, "
+                                        "CustomState{o,v,vy}): orientation / velocity constraints decided only where the "
+                                        "stored and the atan2 / hypot reading agree (all EITHER verdicts of the "
+                                        "state-class dimension are of this kind); orientation on an interval end point after a non-zero "
                                         "number of full turns / of an interval the constructor moved by 2pi; for goals "
                                         "turned by a quarter turn: pure boundary contact and interval end points"}
     rng = ctx.rng
@@ -339,7 +378,7 @@ def _ask(region, s):
     import numpy as np
     from crv import gamma
     try:
-        r = region.is_reached(gamma.query_state(s))
+        r = region.is_reached(gamma.query_state_cls(s))
         if isinstance(r, (bool, np.bool_)):
             return "T" if r else "F"
         return "exc:ReturnType_" + type(r).__name__
@@ -351,7 +390,7 @@ def _ask_traj(problem, tr):
     from crv import gamma
     from commonroad.scenario.trajectory import Trajectory
     try:
-        traj = Trajectory(tr[0]["t"], [gamma.query_state(s) for s in tr])
+        traj = Trajectory(tr[0]["t"], [gamma.query_state_cls(s) for s in tr])
     except Exception as ex:
         from crv.tlc import MachineryError
         raise MachineryError("driver could not build trajectory %r: %r" % (tr, ex))
@@ -432,7 +471,7 @@ def execute(case):
         # signature: the goal shape plus the state kind of the trajectory (per-state tags would multiply sigs)
         ev.append({"op": "goal_reached", "goal": goal, "traj": tr, "res": res, "idx": idx,
                    "sig": "goal_reached/" + head + ("/" + lc if lc and res not in ("T", "F") else "") + "/" +
-                          tr[0]["kind"]})
+                          tr[0]["kind"] + _cls_tag(tr[0])})
     if "mv" not in case:
         return {"ev": ev}
     # ---- moved goal: (optionally queried above = warm) -> translate_rotate through one of three routes -> query again
@@ -456,17 +495,20 @@ def execute(case):
     for s in case["mstates"]:
         res = _ask(problem.goal, s)
         ev.append(dict(base, op="moved_is_reached", state=s, res=res,
-                       sig="is_reached/" + head + ("/" + lc if lc and res not in ("T", "F") else "") + tag))
+                       sig="is_reached/" + head + ("/" + lc if lc and res not in ("T", "F") else "") + tag + _cls_tag(s)))
     for tr in case.get("mtrajs", []):
         res, idx = _ask_traj(problem, tr)
         ev.append(dict(base, op="moved_goal_reached", traj=tr, res=res, idx=idx,
-                       sig="goal_reached/" + head + ("/" + lc if lc and res not in ("T", "F") else "") + tag))
+                       sig="goal_reached/" + head + ("/" + lc if lc and res not in ("T", "F") else "") + tag +
+                           _cls_tag(tr[0])))
     return {"ev": ev}
 
 
 def _off_band(goal, s):
     """True when no orientation end point (modulo a full turn) is hit: the verdict cannot be an EITHER band, so a
     flipped result must be rejected.  Only selects WHERE to corrupt; judges nothing."""
+    if s.get("cls") in ("MBState", "CustomOVV"):
+        return False                          # both readings accepted there (declared band)
     if s["kind"] == "pm":
         return all(g["ori"]["k"] == "none" for g in goal)
     return all(g["ori"]["k"] == "none" or ((s["th"] - g["ori"]["a"]) % 24 and (s["th"] - g["ori"]["b"]) % 24)
